@@ -31,7 +31,8 @@ def check(ctx):
                 "retrieve lock must be refuted). Code: (1) real decoders (template and data datagrams through Decode), a real "
                 "Dump loop and real IRPC.Get lookups run concurrently on one cache, for IPFIX and NetFlow v9: once without hooks "
                 "under the race detector, once with the lock-boundary hooks recording a totally ordered trace that TLC validates "
-                "against CacheTrace.tla (lock discipline, every lookup observes exactly the last inserted version of its key, "
+                "against CacheTrace.tla (lock discipline, every lookup observes exactly the last inserted version of its key, a processed "
+                "announcement - plain or options template - was inserted or found unchanged, "
                 "every dump file loads back as the shard contents at the moment each shard was locked); (2) refusal probes: a "
                 "goroutine is held inside insert / retrieve / dump critical sections and the operations the specification disables "
                 "(table printed by TLC from CanWrite/CanRead) must not enter within the probe time. One evaluation = one recorded "
